@@ -2110,16 +2110,24 @@ func (p *produceRequest) idempotent() bool { return p.producerID >= 0 }
 func (p *produceRequest) tryAddBatch(produceVersion int32, recBuf *recBuf, batch *recBatch) bool {
 	batchWireLength, flexible, topicIDs := batch.wireLengthForProduceVersion(produceVersion)
 	batchWireLength += 4 // int32 partition prefix
+	if flexible || produceVersion < 0 {
+		batchWireLength++ // the partition's (empty) tag section; assumed while the version is unknown
+	}
 
 	if partitions, exists := p.batches.bs[recBuf.topic]; !exists {
 		if topicIDs {
-			batchWireLength += 16 + 1 // topic ID size, compact array len for 1 item (if we are using topic IDs, we are definitely flexible)
+			batchWireLength += 16 + 1 + 1 // topic ID size, compact array len for 1 item, topic tag section (if we are using topic IDs, we are definitely flexible)
 		} else {
 			lt := int32(len(recBuf.topic))
 			if flexible {
-				batchWireLength += uvarlen(len(recBuf.topic)) + lt + 1 // compact string len, topic, compact array len for 1 item
+				batchWireLength += uvarlen(len(recBuf.topic)) + lt + 1 + 1 // compact string len, topic, compact array len for 1 item, topic tag section
 			} else {
 				batchWireLength += 2 + lt + 4 // string len, topic, partition array len
+				if produceVersion < 0 && 2+lt+4 < 16+1+1 {
+					// Unknown version: the request may end up
+					// addressing the topic by ID.
+					batchWireLength += 16 + 1 + 1 - (2 + lt + 4)
+				}
 			}
 		}
 	} else if flexible {
